@@ -38,6 +38,7 @@ type Canon struct {
 	idxLoops   map[types.Object]ast.Expr // loop counters -> the collection they count through
 	rangeVals  map[types.Object]ast.Expr // range value variables -> the collection
 	loopsDone  bool
+	isLit      bool
 	body       *ast.BlockStmt
 	inlBodies  []ast.Node
 }
@@ -195,6 +196,18 @@ func (c *Canon) AddInlined(body *ast.BlockStmt, inl []*InlinedCall, alias map[ty
 			}
 		}
 	}
+	if c.isLit {
+		// a function literal keeps the names its function gave; the helpers' locals are named in addition
+		var extra []ast.Node
+		for _, ic := range inl {
+			for _, p := range ic.Bound {
+				extra = append(extra, p)
+			}
+			extra = append(extra, ic.Decl.Body)
+		}
+		c.nameLocalsIn(extra)
+		return
+	}
 	// name again over all bodies
 	for o := range c.base {
 		delete(c.names, o)
@@ -334,6 +347,7 @@ func NewCanonAliased(info *types.Info, pkg *types.Package, recv *ast.FieldList, 
 		}
 	}
 	c.body = body
+	c.isLit = outer != nil
 	if outer != nil {
 		c.idxLoops, c.rangeVals, c.loopsDone = outer.idxLoops, outer.rangeVals, outer.loopsDone
 		if !outer.loopsDone {
